@@ -132,13 +132,10 @@ func (m *chainModel) borCheck(p *node, h *types.Header) (ok bool, why string, se
 	return true, "", func(n *node) { n.sealer = sealer }
 }
 
-func (m *chainModel) borGood(p *node, pick int, preferInTurn bool, root ecommon.Hash, dt uint64) (*types.Header, int) {
+func (m *chainModel) borGood(p *node, pick int, mode int, root ecommon.Hash, dt uint64) (*types.Header, int) {
 	e := m.e
 	num := p.h.Number.Uint64() + 1
-	signer := m.borSet[pick%len(m.borSet)]
-	if preferInTurn {
-		signer = m.borSet[m.borProp]
-	}
+	signer := chooseSigner(m.borSet, m.borSet[m.borProp], pick, mode)
 	succ := m.borSuccession(signer)
 	h := &types.Header{
 		ParentHash: p.hash, UncleHash: emptyUncleHash, Root: root, TxHash: types.EmptyRootHash, ReceiptHash: types.EmptyRootHash,
@@ -154,7 +151,7 @@ func (m *chainModel) borBuildOp(op c29Op, p *node) (*types.Header, string) {
 	e := m.e
 	num := p.h.Number.Uint64() + 1
 	root := crypto.Keccak256Hash([]byte("root"), p.hash[:], []byte{byte(op.Signer), byte(op.Arg)})
-	h, ki := m.borGood(p, op.Signer, op.InTurn, root, op.Dt)
+	h, ki := m.borGood(p, op.Signer, turnMode(op), root, op.Dt)
 	if op.Kind != "mut" {
 		return h, op.Kind
 	}
@@ -253,14 +250,14 @@ func borFamily() *family {
 		},
 		grow: func(m *chainModel, p *node, root ecommon.Hash, weak bool) *types.Header {
 			if !weak || len(m.borSet) == 1 {
-				h, _ := m.borGood(p, 0, true, root, 0)
+				h, _ := m.borGood(p, 0, turnPrefer, root, 0)
 				if weak {
-					h, _ = m.borGood(p, 0, true, root, 1)
+					h, _ = m.borGood(p, 0, turnPrefer, root, 1)
 				}
 				return h
 			}
 			// the producer right before the proposer has the largest succession, i.e. the lowest difficulty
-			h, _ := m.borGood(p, (m.borProp+len(m.borSet)-1)%len(m.borSet), false, root, 0)
+			h, _ := m.borGood(p, (m.borProp+len(m.borSet)-1)%len(m.borSet), turnAny, root, 0)
 			return h
 		},
 		after: func(m *chainModel, p, n *node) {
